@@ -26,6 +26,28 @@ UPD = {
  "C17-3": ({"C17": 1}, "missed at first; C17 draws a second key (delay) on an edge that is already swept"),
  "C17-4": ({"C17": 1}, "missed at first; C17 draws hierarchical templates and wildcard input keys"),
  "C19-3": ({"C19": 1}, "missed at first; answers returned earlier are held and re-checked"),
+ # ---- round 3 (seeds -5 / -6, written against the tree with the repairs of the second session) ----
+ "C10-5": ({"C10": 1}, "missed at first; C10 writes delays of the x(t-tau) notation in scientific notation as well (tform_sci)"),
+ "C10-6": ({"C10": 1, "C09": 1, "C04": 1}, "missed at first; C10 delays subsets of the edges of one source (an undelayed edge before a delayed one)"),
+ "C16-5": ({"C16": 1}, "missed at first; C16 draws connections of one source variable with near-equal delays (same number of steps) and a shared spread"),
+ "C18-5": ({"C18": 1}, "missed at first; C18 declares parameters that only occur in boundary/integral conditions"),
+ "C11-5": ({"C11": 0, "C16": 1}, "not seen by C11's own arms (they use scalar edges); caught by C16, which owns the Connectivity forms of delay+spread (two connections of one population variable with different kernels)"),
+ "C11-6": ({"C11": 1}, "missed at first: dde_approx was not drawn at all; C11's gamma arm now draws dde_approx in {0,3,5} (this also exposed the genuine defects F-11e and F-11f)"),
+ "C13-5": ({"C13": 1}, "missed at first; the first two models of a C13 history may be built from the very same template objects"),
+ "C13-6": ({"C13": 1}, "missed at first; the sweep arm has an int_spelling variant (k: 2 in the first model, k: 2.0 and a non-integer update in the second)"),
+ "C15-6": ({"C15": 1}, "missed at first; C15 has a write-load-write-load variant on one file in four path notations (plain, ./, dotted directory, dotted)"),
+ "C14-6": ({"C14": 0, "C13": 1}, "the operator cache is process-global state, which C14 resets before every operation by design (C14 judges what is kept on the template objects); caught by C13"),
+ "C03-5": ({"C03": 0, "C10": 1}, "C03's models have no delays; delayed models under the fixed-step solvers are C10's run arm, which catches it (two distinct lags)"),
+ "C12-6": ({"C12": 1}, "missed at first; C12 draws the names sympy uses for cse temporaries (x0, x1, ...) for parameters and states"),
+ "C01-6": ({"C01": 0, "C04": 1}, "a scalar source fanning out to >= 10 merged targets through the indexed edge path: generated by C04's cross_type arm, which catches it; C01's vectorized arm stays below 10 targets of one source"),
+ "C04-5": ({"C04": 1, "C09": 1, "C10": 1}, "missed at first; C04's traj arm now delays subsets of the edges"),
+ "C05-5": ({"C05": 0, "C01": 1}, "needs two operators with the same variable name next to a user variable named like the generated label: C05's arms compile single operators; caught by C01 (collision names)"),
+ "C05-6": ({"C05": 1}, "missed at first; C05 has the special_names arm (a name with another meaning is refused or means the declared variable). The patch was re-based by hand after the repair F-05k touched the same list"),
+ "C06-5": ({"C06": 0, "C08": 1}, "2-D extrinsic inputs through wildcard paths are C08's subject (fixed arm, interleaved node types); caught there"),
+ "C06-6": ({"C06": 0, "C16": 1}, "missed at first by every check: add_edges_from_matrix was not exercised; C16 has the matrix_edges arm now"),
+ "C09-5": ({"C09": 0, "C16": 1}, "missed at first; C16 passes spread=0 explicitly for some discrete delays of Connectivity objects"),
+ "C09-6": ({"C09": 1}, "missed at first; C09 has the alg_chain arm (algebraic source that depends on an edge from an algebraic variable of a later node, delayed and undelayed targets)"),
+ "C17-5": ({"C17": 1}, "missed at first; C17 draws three keys with permute_grid=True"),
 }
 for k, (res, note) in UPD.items():
     p = os.path.join(HERE, "seeded", k, "meta.json")
